@@ -41,9 +41,7 @@ The chunked prefilter path (`Model/C08.lean`, `prefilterBuild`): per-chunk `buil
 concatenation; compared exactly. Spec on the implementation's reply: `bad:concatenation_order_dependent`,
 `bad:thread_dependent`, `bad:chunk_size_dependent` (the implementation against itself), the clauses of `specVerdict`
 against the per-chunk sources recomputed from the request text (decoys judged against the targets of their own
-chunk), `bad:same_form_twice_masses_differ_by_rounding` (two entries with the same sequence and modifications; the
-quadratic clause with the mass in the key having passed, they differ in the f32 mass only: known finding),
-`bad:decoy_has_target_sequence` (not evaluated when the request has `[` / `]` modifications or drops a subset).
+chunk), `bad:decoy_has_target_sequence` (not evaluated when the request has `[` / `]` modifications or drops a subset).
 
 ```
 db8t <k> <threads>*k <arguments of db8>
@@ -172,7 +170,7 @@ def sameEntry (a b : WPep) : Bool :=
 
 /-- duplicate test by sorting (for databases too large for the quadratic clause) -/
 def noDupSorted (out : List (DbPep F)) : Bool :=
-  let s := out.mergeSort keyLe
+  let s := out.mergeSort keyLe   -- by identity (sequence, modifications, termini): no mass in the key
   (s.zip (s.drop 1)).all fun (a, b) => !keyEq a b
 
 def handle (op : String) (args impl : List String) : Option Reply :=
@@ -344,9 +342,6 @@ def handle (op : String) (args impl : List String) : Option Reply :=
               "bad:differs_from_proven_model"
             else "ok"
           if v != "ok" then v else
-          -- the key of the property text has no mass in it: two entries with the same sequence and modifications
-          -- can only differ in the f32 mass (the one summed in mirror order) — narrow clause of the known finding
-          if !clNoDupForm out then "bad:same_form_twice_masses_differ_by_rounding" else
           -- C07's clause. As coded it can fail in two situations, in which it is not evaluated: with protein-terminal
           -- modifications a decoy form of a mirror-image target of another chunk may carry a modification its target
           -- twin cannot have; with a dropped subset the target twin of a surviving decoy form may have been dropped
